@@ -518,7 +518,7 @@ GAS_CFGS_FULL = GAS_CFGS_QUICK + [
 
 # quick tiers leave out the families another property's quick tier already analyses
 CORE_FAMS = ["arith", "cast", "felt", "bool", "wide", "bounded", "plumb", "gas", "hash", "spec",
-             "bigap"]
+             "bigap", "flow"]
 
 
 def fams_for(args, quick):
@@ -555,7 +555,8 @@ def run_c01(args):
     os.environ["VERIF_GEN_PROGRAMS"] = n
     os.environ["VERIF_SEED"] = str(args.seed)
     return generic(args, "C01", workers.c06_worker, [("default", {"gas": False})], confirm_c06,
-                   level="translation_validation", families=["gen", "plumb", "fold", "spec"],
+                   level="translation_validation",
+                   families=args.families or ["gen", "plumb", "fold", "spec", "flow"],
                    extra_task=lambda fam, e: (fam, 0))
 
 
@@ -585,7 +586,7 @@ def run_c05(args):
     os.environ["VERIF_SEED"] = str(args.seed)
     work = common.workdir("C05" + ("_adhoc%d" % os.getpid() if (args.only or args.families) else ""))
     build_s = common.build_tool()
-    fams = args.families or ["gen", "plumb", "fold", "spec"]
+    fams = args.families or ["gen", "plumb", "fold", "spec", "flow"]
     # compiled the way `cairo-run` does without --available-gas (no gas paths)
     base_cfg = {"optimizations": "disabled", "gas": False}
     variants = C05_VARIANTS_FULL if tier == "thorough" else C05_VARIANTS_QUICK
